@@ -382,6 +382,28 @@ func (c *hmapClassifier) classify(n ast.Node) []paths.Event {
 				}
 			}
 		}
+		// order-list surgery written as methods of the entry (e.linkBetween(prev, next), e.unlink())
+		if id, ok := ast.Unparen(sel.X).(*ast.Ident); ok && id.Name != c.recv {
+			if lr := c.linkRoles(sel.Sel); lr != nil {
+				switch lr.kind {
+				case "chain":
+					end := "?"
+					if lr.prev >= 0 && lr.next >= 0 && lr.prev < len(call.Args) && lr.next < len(call.Args) {
+						a, b := c.norm(call.Args[lr.prev]), c.norm(call.Args[lr.next])
+						switch {
+						case a == "header" && b == "header.link_next":
+							end = "first"
+						case a == "header.link_prev" && b == "header":
+							end = "last"
+						}
+					}
+					out = append(out, paths.Event{Kind: "LINK", Arg: end, Pos: call.Pos()})
+				case "unchain":
+					out = append(out, paths.Event{Kind: "UNLINK", Pos: call.Pos()})
+				}
+				return true
+			}
+		}
 		if id, ok := ast.Unparen(sel.X).(*ast.Ident); !ok || id.Name != c.recv {
 			if sel.Sel.Name == "Sort" && c.norm(sel.X) == "sort" {
 				out = append(out, paths.Event{Kind: "SORT", Pos: call.Pos()})
@@ -1542,6 +1564,79 @@ func (c *hmapClassifier) linkKind(id *ast.Ident) string {
 		return "unchain"
 	}
 	return ""
+}
+
+// linkRoles is linkKind for callees in which the entry being linked may be the receiver
+// (func (e *Entry) linkBetween(prev, next *Entry), func (e *Entry) unlink()): it says which operand
+// — -1 the receiver, i the i-th argument — is the predecessor and which the successor.
+type linkRole struct {
+	kind       string
+	prev, next int
+}
+
+func (c *hmapClassifier) linkRoles(id *ast.Ident) *linkRole {
+	fn, _ := c.info.Uses[id].(*types.Func)
+	if fn == nil || c.p == nil {
+		return nil
+	}
+	lfi := c.p.FuncOf(fn)
+	if lfi == nil || lfi.Decl.Body == nil || lfi.Pkg != c.fi.Pkg {
+		return nil
+	}
+	names := map[string]int{}
+	if lfi.Decl.Recv != nil && len(lfi.Decl.Recv.List) == 1 && len(lfi.Decl.Recv.List[0].Names) == 1 {
+		if _, isPtr := lfi.Pkg.TypesInfo.TypeOf(lfi.Decl.Recv.List[0].Type).(*types.Pointer); isPtr {
+			names[lfi.Decl.Recv.List[0].Names[0].Name] = -1
+		}
+	}
+	i := 0
+	for _, f := range lfi.Decl.Type.Params.List {
+		for _, nm := range f.Names {
+			if _, isPtr := lfi.Pkg.TypesInfo.TypeOf(f.Type).(*types.Pointer); isPtr {
+				names[nm.Name] = i
+			}
+			i++
+		}
+	}
+	type own struct{ prev, next string }
+	owns := map[string]*own{}
+	joins := map[string]int{}
+	ast.Inspect(lfi.Decl.Body, func(n ast.Node) bool {
+		as, ok := n.(*ast.AssignStmt)
+		if !ok || len(as.Lhs) != 1 || len(as.Rhs) != 1 {
+			return true
+		}
+		l := stripSpaces(types.ExprString(as.Lhs[0]))
+		rr := stripSpaces(types.ExprString(as.Rhs[0]))
+		for e := range names {
+			if owns[e] == nil {
+				owns[e] = &own{}
+			}
+			if _, isRole := names[rr]; isRole && rr != e {
+				if l == e+".link_prev" {
+					owns[e].prev = rr
+				}
+				if l == e+".link_next" {
+					owns[e].next = rr
+				}
+			}
+			if (l == e+".link_prev.link_next" && rr == e+".link_next") || (l == e+".link_next.link_prev" && rr == e+".link_prev") {
+				joins[e]++
+			}
+		}
+		return true
+	})
+	for e, o := range owns {
+		if o.prev != "" && o.next != "" && names[e] == -1 {
+			return &linkRole{"chain", names[o.prev], names[o.next]}
+		}
+	}
+	for e, k := range joins {
+		if k == 2 && names[e] == -1 {
+			return &linkRole{kind: "unchain"}
+		}
+	}
+	return nil
 }
 
 // hashHelperKind: the kind of the expression returned by the type's hash(key) method.
